@@ -1,3 +1,5 @@
+#[cfg(mos_verif_threads)]
+use mos_simrt::std_shim as std;
 use serde::de::DeserializeOwned;
 use serde::{Deserialize, Serialize};
 
